@@ -55,6 +55,12 @@ def rule_D5(tree: Tree) -> RuleResult:
                 ok = True
             elif isinstance(a, ast.Pass):
                 ok = True
+            if ok and f.name == "handle_tls_record":
+                # metadata is handshake / alert / change-cipher-spec material: nothing is added in the application-data arm
+                for b, lab in cfg.conditions_at(n.id):
+                    nd = cfg.nodes[b]
+                    if nd.kind == "case" and lab == "T" and isinstance(nd.ast.pattern, ast.MatchValue) and try_fold(nd.ast.pattern.value) == 0x17:
+                        ok = False
             r.ob(ok, Finding("D5", f"session:{f.qualname}:meta-dependent:{_norm_stmt(a)}",
                              f"{f.qualname}: `{src(a, 100)}` executes only with (or only without) -a; the switch may only add records to the output "
                              f"channel — it must not influence decryption state, gates or application-data handling", f.module.line(a)))
